@@ -1519,7 +1519,8 @@ fn main() {
         Space {
             // literals / parameter names that are different texts of the same decoded segment
             name: "alias",
-            segs: vec![lit("a"), lit("%61"), lit("é"), lit("%C3%A9"), lit("%c3%a9"), par("x"), par("%78")],
+            // (%E9 / %E8: single bytes that are not valid UTF-8 on their own)
+            segs: vec![lit("a"), lit("%61"), lit("é"), lit("%C3%A9"), lit("%c3%a9"), lit("%E9"), lit("%E8"), par("x"), par("%78")],
             max_len: alias_len,
             schemes: vec![(None, alias_len), (Some("swim"), alias_len)],
             extras: vec![],
